@@ -6,7 +6,7 @@ func TestSelfTests(t *testing.T) {
 	for name, f := range map[string]func() error{
 		"blowfish": SelfTestBlowfish, "tea": SelfTestTEA, "xtea": SelfTestXTEA, "rc2": SelfTestRC2, "twofish": SelfTestTwofish,
 		"scrypt": func() error { return SelfTestScrypt(!testing.Short()) }, "bcrypt": SelfTestBcrypt, "bcrypt_pbkdf": SelfTestBcryptPBKDF,
-		"s2k": SelfTestS2K, "pkcs12": SelfTestPKCS12,
+		"s2k": SelfTestS2K, "ripemd160": SelfTestRIPEMD160, "pkcs12": SelfTestPKCS12,
 	} {
 		if err := f(); err != nil {
 			t.Errorf("%s: %v", name, err)
